@@ -449,7 +449,8 @@ class Run:
         kw: dict[str, Any] = {}
         for name, val in kwspec.items():
             if name == 'solver':
-                kw['solver'] = palette.solver_for(f'u{uid}' if val == 'u' else val)
+                tag = model.delta_for_block(uid, {'solver': val})['solver']
+                kw['solver'] = palette.solver_for(tag, fresh=val.endswith('!'))
             elif name == 'throw':
                 kw['solver_throw'] = bool(val)
             elif name == 'options':
@@ -475,7 +476,21 @@ class Run:
         return kw
 
     def make_callback(self, tag: str, raising: bool):
+        """A tagged callback; the flavour (closure, functools.partial, callable instance, bound
+        method) rotates with the tag so that nothing depends on callbacks being plain functions."""
+        import functools
+
         run = self
+        digits = ''.join(ch for ch in tag if ch.isdigit())
+        flavour = int(digits) % 4 if digits else 0
+        if flavour == 1:
+            cb = functools.partial(_partial_callback, run, tag, raising)
+            cb.tag = tag  # type: ignore[attr-defined]
+            return cb
+        if flavour == 2:
+            return _CallbackObject(run, tag, raising)
+        if flavour == 3:
+            return _CallbackObject(run, tag, raising).method
 
         def callback(solution):
             run.on_callback(tag, solution, raising)
@@ -1437,6 +1452,21 @@ class Run:
         elif depth >= 1:
             self.probe('cancel_inside_block')
         actor.task.cancel()
+
+
+def _partial_callback(run, tag, raising, solution):
+    run.on_callback(tag, solution, raising)
+
+
+class _CallbackObject:
+    def __init__(self, run, tag, raising):
+        self.run, self.tag, self.raising = run, tag, raising
+
+    def __call__(self, solution):
+        self.run.on_callback(self.tag, solution, self.raising)
+
+    def method(self, solution):
+        self.run.on_callback(self.tag, solution, self.raising)
 
 
 def _inside_compiled_execution() -> bool:
